@@ -183,4 +183,97 @@ def c14(c):
                     "monitor in TLC (Trace_Monitor!Isolation); conformance of the values with the state machine is C13's business; distinct = bus transitions")
 
 
-CHECKS = {"C12": c12, "C13": c13, "C14": c14, "C01": c01, "C02": c02, "C03": c03, "C04": c04, "C05": c05}
+# --------------------------------------------------------------------------- C09 / C10 / C11
+def ctl_cfgs(tier):
+    base = ["configure", "configure_b", "configure_c", "send_pages", "show", "load", "shut_down"]
+    return base + (["cin_full"] if tier == "thorough" else ["cin_small"])
+
+
+def ctl_scripts(c, cfgs, emit_to=None):
+    """M (+G emission): run MC_Ctl for each cfg; returns the path of the concatenated script file."""
+    d = vlib.workdir(c.prop, "gen_ctl")
+    path = os.path.join(d, "scripts.ndjson")
+    with open(path, "w") as sink:
+        for cfg in cfgs:
+            c.mc("MC_Ctl", "MC_Ctl_%s.cfg" % cfg, workers=10, timeout=3000, gen_tag="GEN", gen_sink=sink, coverage=(c.tier == "quick" and cfg in ("show", "send_pages")))
+    return path
+
+
+def record_from_scripts(c, path, name, shards):
+    d = vlib.workdir(c.prop, "traces_scripts")
+    out = vlib.fdv(["record", "CTLSCRIPTS", path, name, "--out", d, "--shards", str(shards)])
+    files = sorted(os.path.join(d, f) for f in os.listdir(d) if f.endswith(".ndjson"))
+    return files
+
+
+def ctl_key(prefix):
+    def key(ev, ctx):
+        import json
+        call = None
+        for e in reversed(ctx):
+            if e.get("e") == "call":
+                call = {"name": e.get("name"), "me": e.get("me")}
+                break
+        return "%s:%s" % (prefix, json.dumps({"call": call, "event": {k: ev.get(k) for k in ("e", "m", "r", "out")}}, sort_keys=True)[:500])
+    return key
+
+
+def c10(c):
+    path = ctl_scripts(c, ctl_cfgs(c.tier))
+    c.replay_vectors("CTL", path, "every reply script of the bounded model fed to the real Sign (message by message, outcome)")
+    os.remove(path)
+    shards = 16 if c.tier == "thorough" else 8
+    files, n, out = vlib.record("C10", c.tier, c.seed, shards)
+    c.details["recorder"] = out.strip().splitlines()[0][:500]
+    c.validate("Trace_Ctl", "Trace_Ctl.cfg", files, ["record", "C10"], procs=PROCS, timeout=3000, key_fn=ctl_key("C10"))
+    c.assumptions += ["reply alphabet of the exhaustive enumeration: 13 states x own/foreign, 6 acks x own/foreign, none, goodbye, unknown frame, bus error "
+                      "(configure-if-needed in quick: a 15-value sub-alphabet); polling bounded to 4 state queries per show/load call",
+                      "random adversarial conversations use a richer alphabet (SendData/DataChunksSent/Hello/requests as replies, near-miss addresses)"]
+    c.exhaustive = True
+    return c.finish("model_checking",
+                    "M+G: TLC enumerates every reply script to the natural end of configure (3 sign types/addresses), configure-if-needed, send-pages, "
+                    "show, load-next and shut-down; each complete script {messages, replies, outcome} is replayed against the real Sign through a scripted "
+                    "SignBus and compared message by message and on the outcome class; V: random adversarial and cooperative conversations of the real Sign "
+                    "are validated by TLC against Controller!CMsg/Recv; distinct = complete conversations")
+
+
+def c11(c):
+    path = ctl_scripts(c, ctl_cfgs(c.tier))
+    files = record_from_scripts(c, path, "C11S", 16 if c.tier == "thorough" else 10)
+    os.remove(path)
+    c.validate("Trace_CtlMon", "Trace_CtlMon_C11.cfg", files, ["record", "CTLSCRIPTS"], procs=PROCS, timeout=3000, key_fn=ctl_key("C11"))
+    shards = 16 if c.tier == "thorough" else 8
+    files2, n, out = vlib.record("C11", c.tier, c.seed, shards)
+    c.details["recorder"] = out.strip().splitlines()[0][:500]
+    c.validate("Trace_CtlMon", "Trace_CtlMon_C11.cfg", files2, ["record", "C11"], procs=PROCS, timeout=3000, key_fn=ctl_key("C11"))
+    c.assumptions += ["the monitor derives 'which replies are allowed at this point' from the recorded conversation alone (previous message, call name, attempt number)",
+                      "a script that runs out of replies is continued with bus errors (a legitimate environment)"]
+    c.exhaustive = True
+    return c.finish("model_checking",
+                    "M: the C11 predicates (no unconfirmed success, fail-stop, at most three attempts, retry only after the own failed report, own address "
+                    "only, foreign replies never treated as own) are TLC invariants on every prefix of every reply script of the bounded model; "
+                    "G->V: every one of those scripts drives the real Sign and the conversation that actually took place is checked by the same "
+                    "predicates in TLC (reference-free monitor); V: random adversarial conversations likewise; distinct = conversations")
+
+
+def c09(c):
+    cfgs = ["configure", "configure_b", "configure_c", "send_pages", "send_pages_model"] + (["cin_full"] if c.tier == "thorough" else ["cin_small"])
+    path = ctl_scripts(c, cfgs)
+    files = record_from_scripts(c, path, "C09S", 16 if c.tier == "thorough" else 10)
+    os.remove(path)
+    c.validate("Trace_CtlMon", "Trace_CtlMon_C09.cfg", files, ["record", "CTLSCRIPTS"], procs=PROCS, timeout=3000, key_fn=ctl_key("C09"))
+    shards = 16 if c.tier == "thorough" else 8
+    files2, n, out = vlib.record("C09", c.tier, c.seed, shards)
+    c.details["recorder"] = out.strip().splitlines()[0][:500]
+    c.validate("Trace_CtlMon", "Trace_CtlMon_C09.cfg", files2, ["record", "C09"], procs=PROCS, timeout=3000, key_fn=ctl_key("C09"))
+    c.assumptions += ["fewer than 65536 chunks per transfer (the 16-bit count field); pages up to 65536 bytes (the 16-bit offset limit)",
+                      "the items of a call are taken from the real API (SignType::to_bytes of the controller's type, Page::as_bytes of each page)"]
+    return c.finish("model_checking",
+                    "M: the transfer monitor (ack first; per item consecutive chunks of <= 16 bytes at offsets 0,16,32,.. whose concatenation is the item; "
+                    "count = chunks since the request; result asked only afterwards; every retry repeats the whole sequence) is an invariant on every reply "
+                    "script of the bounded model, including ragged and empty items; G->V and V: TLC's scripts and cooperative-or-failing buses (0..3 failure "
+                    "reports) drive the real Sign with all 11 configurations and page lists of arbitrary dimensions from one chunk to 65536 bytes; "
+                    "the recorded conversations are checked by the same monitor in TLC; distinct = conversations")
+
+
+CHECKS = {"C09": c09, "C10": c10, "C11": c11, "C12": c12, "C13": c13, "C14": c14, "C01": c01, "C02": c02, "C03": c03, "C04": c04, "C05": c05}
